@@ -135,6 +135,21 @@ func runC01(c *Ctx) {
 		for _, pk := range randPubKeys(c, c.Pick(4, 40)) {
 			renderings(c, newAddr(c, "PubKey", net, pk), "PubKey", net)
 		}
+		// public keys whose hex form consists of cashaddr-alphabet characters only (no 'b', no '1'): both
+		// cashaddr attempts end in a checksum mismatch before the key is considered (planner search)
+		if net == 1 || net == 6 || c.Thorough() {
+			found := 0
+			for sc := 2; sc < c.Pick(40000, 200000) && found < 3; sc++ {
+				var kb [32]byte
+				kb[29], kb[30], kb[31] = byte(sc>>16), byte(sc>>8), byte(sc)
+				_, pub := bchec.PrivKeyFromBytes(bchec.S256(), kb[:])
+				hx := hexLower(pub.SerializeCompressed())
+				if !strings.ContainsAny(hx, "b1") {
+					found++
+					renderings(c, newAddr(c, "PubKey", net, pub.SerializeCompressed()), "PubKey", net)
+				}
+			}
+		}
 		// wrong-length hashes are refused
 		for _, n := range []int{0, 19, 21, 31, 32, 33} {
 			for _, ctor := range append(append(append([]string{}, cashCtors20...), legacyCtors...), cashCtors32...) {
@@ -416,6 +431,41 @@ func runC03(c *Ctx) {
 					}
 				}
 			}
+		}
+	}
+	// alphanumerics outside the alphabet (b i o 1) at one position x every symbol at the position before it
+	for _, pfx := range []string{"bitcoincash", "bchtest"} {
+		syms := refTo5(append([]byte{0}, randBytes(r, 20)...), 0)
+		body := refCashString(pfx, syms)
+		for p := 1; p < len(body); p++ {
+			if !c.Thorough() && body[p] != 'l' && (p+int(c.Seed))%4 != 0 {
+				continue
+			}
+			for _, f := range []byte("bio1BIO") {
+				for v := 0; v < 32; v++ {
+					m := []byte(body)
+					m[p] = f
+					m[p-1] = b32alpha[v]
+					decodeCash(c, pfx+":"+string(m))
+				}
+			}
+		}
+	}
+	// other final constants: a string whose remainder is a different constant (0, or the analogue of the
+	// bech32m constant) is not valid -- otherwise the valid set is a union of cosets with a smaller distance
+	for k := 0; k < c.Pick(60, 600); k++ {
+		pfx := prefixes[k%len(prefixes)]
+		syms := refTo5(append([]byte{byte(k%2) << 3}, randBytes(r, 20)...), 0)
+		for _, x := range []uint64{1, 2, 0x2bc830a3, 0xffffffffff, 1 << 39} {
+			decodeCash(c, pfx+":"+refCashStringConst(pfx, syms, x))
+		}
+		hrp := []string{"bc", "tb", "a"}[k%3]
+		data := make([]byte, r.Intn(40))
+		for i := range data {
+			data[i] = byte(r.Intn(32))
+		}
+		for _, x := range []int{0, 2, 0x2bc830a3, 0x3fffffff, 1 << 29} {
+			b32dec(c, refBech32Const(hrp, data, x))
 		}
 	}
 	// bech32: valid strings up to 90 chars, substitutions of weight 1..4 in the data part
